@@ -1,4 +1,156 @@
-import EphVerif.Spec.Message
+/-
+C15 — protocol messages round-trip through the wire codec.
+
+Statement (properties.jsonl): for every message of each type with a version from 1 to 4 and fields
+within their wire ranges, decoding its encoding yields the same message, with the announce PoW
+nonce carried from version 3 onward as the decoder requires; a version outside 1..4 is encoded as
+the nearest supported version.
+
+All theorems are about `Model/Message.lean` (the transcription of Message.cpp) instantiated with
+the constants regenerated from the source (`Generated/C15.lean`); the specification they meet is
+`Spec/Message.lean`.  No bound on field sizes.
+-/
+import EphVerif.Lemmas.C15Roundtrip
+
 namespace EphVerif.C15
-theorem placeholder : True := trivial
+open EphVerif.Message EphVerif.MessageSpec EphVerif.Gen.C15
+
+/-! ### generated-constant obligations: the code has the numbers the property names -/
+
+theorem version_limits : kMinimumMessageVersion = 1 ∧ kCurrentMessageVersion = 4 := ⟨rfl, rfl⟩
+
+/-- encoder and decoder both start carrying the announce nonce at version 3 -/
+theorem nonce_from_version_3 : encPowMinVersion = 3 ∧ decPowMinVersion = 3 := ⟨rfl, rfl⟩
+
+theorem type_tags : tagAnnounce = 1 ∧ tagRequest = 2 ∧ tagChunk = 3 ∧ tagAcknowledge = 4 ∧
+    tagTransportHandshake = 5 ∧ tagHandshakeAck = 6 := ⟨rfl, rfl, rfl, rfl, rfl, rfl⟩
+
+theorem id_sizes : kChunkIdSize = 32 ∧ kPeerIdSize = 32 := ⟨rfl, rfl⟩
+
+/-- the translated body of `clamp_version` computes the nearest supported version -/
+theorem clampVersion_eq (v : Nat) : Message.clampVersion v = max 1 (min 4 v) := by
+  unfold Message.clampVersion EphVerif.Gen.C15.clampVersion
+  split
+  · omega
+  · split <;> omega
+
+/-! ### the property -/
+
+/-- ∀ v (also beyond 255): the version byte written is `max 1 (min 4 v)`. -/
+theorem clamp : VersionClamped encode := by
+  intro m
+  simp [encode, clampVersion_eq, nearestVersion]
+
+/-- Round trip for every sendable message and *every* version (0..255 and beyond): what comes
+    back is the message with the nearest supported version, the announce nonce surviving exactly
+    when that version is ≥ 3. -/
+theorem roundtrip_any_version : RoundTrip encode decode := by
+  intro m ⟨htag, hr⟩
+  have hcl := clampVersion_eq m.version
+  have hv1 : 1 ≤ Message.clampVersion m.version := by omega
+  have hv4 : Message.clampVersion m.version ≤ 4 := by omega
+  generalize hvv : Message.clampVersion m.version = v at *
+  have htlt : m.type < 256 := by rw [htag]; cases m.payload <;> simp [tagOf]
+  obtain ⟨q1, q2⟩ := cons2_prefix (UInt8.ofNat v) (UInt8.ofNat m.type) (encodePayload v m.payload)
+  have r1 : rdU8 (UInt8.ofNat v :: UInt8.ofNat m.type :: encodePayload v m.payload) 0 = some v :=
+    rdU8_of_prefix0 q1 (by omega)
+  have r2 : rdU8 (UInt8.ofNat v :: UInt8.ofNat m.type :: encodePayload v m.payload) 1 = some m.type :=
+    rdU8_of_prefix (p := [UInt8.ofNat v]) q2 rfl htlt
+  have hsup : isSupportedVersion v = true := by
+    simp [isSupportedVersion, kMinimumMessageVersion, kCurrentMessageVersion]; omega
+  have harr : nearestVersion m.version = v := by simp [nearestVersion]; omega
+  unfold decode
+  simp only [encode, hvv]
+  rw [if_neg (by simp)]
+  simp only [r1, r2, chk_some, hsup, Bool.not_true, Bool.false_eq_true, if_false, List.drop_succ_cons, List.drop_zero]
+  cases hp : m.payload with
+  | announce a =>
+    rw [hp] at hr htag
+    have ht : m.type = tagAnnounce := htag
+    by_cases h3 : v ≥ decPowMinVersion
+    · rw [if_pos ⟨h3, ht⟩]
+      have := parseAnnounce_encode a true v hr (by simpa [nonce_from_version_3.1, nonce_from_version_3.2] using h3)
+      have h3' : 3 ≤ v := h3
+      simp only [this, if_true, Outcome.map, arrives, harr, hp, h3', if_true]
+    · rw [if_neg (fun hc => h3 hc.1)]
+      have h3' : ¬ 3 ≤ v := h3
+      have := decodePayloadV1_encode (.announce a) v hr (by intro _ _; exact Nat.lt_of_not_le h3)
+      have ht1 : m.type = 1 := htag
+      simp only [tagOf] at this
+      rw [ht1, this]
+      simp [Outcome.map, v1View, arrives, harr, hp, h3', ht1]
+  | request c r =>
+    rw [hp] at hr htag
+    have := decodePayloadV1_encode (.request c r) v hr (by intro _ h; cases h)
+    rw [if_neg (by rw [htag]; simp [tagOf, tagAnnounce]), htag, this]
+    simp [Outcome.map, v1View, arrives, harr, hp, htag]
+  | chunk c d t =>
+    rw [hp] at hr htag
+    have := decodePayloadV1_encode (.chunk c d t) v hr (by intro _ h; cases h)
+    rw [if_neg (by rw [htag]; simp [tagOf, tagAnnounce]), htag, this]
+    simp [Outcome.map, v1View, arrives, harr, hp, htag]
+  | ack c p acc =>
+    rw [hp] at hr htag
+    have := decodePayloadV1_encode (.ack c p acc) v hr (by intro _ h; cases h)
+    rw [if_neg (by rw [htag]; simp [tagOf, tagAnnounce]), htag, this]
+    simp [Outcome.map, v1View, arrives, harr, hp, htag]
+  | handshake pub n rv =>
+    rw [hp] at hr htag
+    have := decodePayloadV1_encode (.handshake pub n rv) v hr (by intro _ h; cases h)
+    rw [if_neg (by rw [htag]; simp [tagOf, tagAnnounce]), htag, this]
+    simp [Outcome.map, v1View, arrives, harr, hp, htag]
+  | handshakeAck acc nv pub =>
+    rw [hp] at hr htag
+    have := decodePayloadV1_encode (.handshakeAck acc nv pub) v hr (by intro _ h; cases h)
+    rw [if_neg (by rw [htag]; simp [tagOf, tagAnnounce]), htag, this]
+    simp [Outcome.map, v1View, arrives, harr, hp, htag]
+
+/-- A message with a version in 1..4 arrives unchanged, except that an announce of version 1 or 2
+    (no nonce field on the wire) reads back nonce 0. -/
+theorem arrives_wellFormed {m : Msg} (h : WellFormed m)
+    (hn : ∀ a, m.payload = .announce a → 3 ≤ m.version ∨ a.nonce = 0) : arrives m = m := by
+  obtain ⟨h1, h4, _⟩ := h
+  have hv : nearestVersion m.version = m.version := by simp [nearestVersion]; omega
+  cases m with
+  | mk version type payload =>
+    cases payload with
+    | announce a =>
+      simp only [arrives, hv]
+      by_cases h3 : 3 ≤ version
+      · simp [h3]
+      · have := (hn a rfl).resolve_left h3
+        cases a; simp_all
+    | _ => simp [arrives, hv]
+
+/-- C15, first clause: ∀ well-formed `m` (version 1..4, tag = payload kind, fields within their wire
+    ranges; any sizes): `decode (encode m) = ok m`, the announce nonce included from version 3. -/
+theorem roundtrip (m : Msg) (h : WellFormed m)
+    (hn : ∀ a, m.payload = .announce a → 3 ≤ m.version ∨ a.nonce = 0) : decode (encode m) = .ok m := by
+  have := roundtrip_any_version m h.2.2
+  rwa [arrives_wellFormed h hn] at this
+
+/-- … and for version-1/2 announces everything but the (absent) nonce comes back. -/
+theorem roundtrip_old_announce (version type : Nat) (a : Announce)
+    (h : WellFormed ⟨version, type, .announce a⟩) (hv : version < 3) :
+    decode (encode ⟨version, type, .announce a⟩) = .ok ⟨version, type, .announce { a with nonce := 0 }⟩ := by
+  have := roundtrip_any_version _ h.2.2
+  have h1 : 1 ≤ version := h.1
+  have h4 : version ≤ 4 := h.2.1
+  have hn : nearestVersion version = version := by simp [nearestVersion]; omega
+  simpa [arrives, hn, Nat.not_le.mpr hv] using this
+
+/-! ### non-vacuity -/
+
+/-- a version-3 announce with a non-zero nonce is well-formed and survives (the case the unrepaired
+    encoder lost), evaluated on the model itself -/
+def sampleAnnounce : Msg :=
+  ⟨3, 1, .announce { chunkId := List.replicate 32 7, peerId := List.replicate 32 9, endpoint := [1, 2, 3], ttl := 3600,
+                      manifestUri := [], shards := [0, 5], nonce := 77 }⟩
+
+example : WellFormed sampleAnnounce := by decide
+example : decode (encode sampleAnnounce) = .ok sampleAnnounce := by decide
+example : (encode ⟨200, 2, .request (List.replicate 32 0) (List.replicate 32 1)⟩).head? = some 4 := by decide
+example : (encode ⟨0, 2, .request (List.replicate 32 0) (List.replicate 32 1)⟩).head? = some 1 := by decide
+example : WellFormed ⟨4, 6, .handshakeAck true 4 4294967295⟩ := by decide
+
 end EphVerif.C15
